@@ -113,10 +113,11 @@ CrossOK(ss, prevEnd, first, volMin) ==
               THEN s.off >= prevEnd /\ CrossOK(Tail(ss), s.off + s.size, first, volMin)
               ELSE CrossOK(Tail(ss), prevEnd + s.size, first, volMin)
 
-Valid(v) ==
-    LET ss == Ordered(v) IN
+ValidOrdered(v, ss) ==
     /\ \A i \in 1..Len(ss) : StructOK(v, ss[i])
     /\ ss = << >> \/ CrossOK(ss, 0, ss[1], MinEnd(ss, 0))
+
+Valid(v) == ValidOrdered(v, Ordered(v))
 
 -----------------------------------------------------------------------------
 (* 4. layout *)
@@ -149,12 +150,23 @@ LayFrom(ss, running, acc) ==
     IF ss = << >> THEN acc
     ELSE LET s     == Head(ss)
              start == IF s.off # Unset THEN s.off ELSE running
+             cl    == ContentOf(s, start)
          IN LayFrom(Tail(ss), start + s.size,
                     Append(acc, [idx |-> s.idx, start |-> start, size |-> s.size,
-                                 content |-> ContentOf(s, start), cok |-> ContentOK(s, ContentOf(s, start))]))
+                                 content |-> cl, cok |-> ContentOK(s, cl)]))
 
-Layout(v)   == LayFrom(Ordered(v), 0, << >>)
-LayoutOK(v) == \A i \in 1..Len(Layout(v)) : Layout(v)[i].cok
+LayoutOrdered(ss) == LayFrom(ss, 0, << >>)
+AllContentOK(L)   == \A i \in 1..Len(L) : L[i].cok
+
+Layout(v)   == LayoutOrdered(Ordered(v))
+LayoutOK(v) == AllContentOK(Layout(v))
+
+\* everything at once (each part evaluated once): used by the enumeration and by TraceGadgetLayout
+Eval(v) == LET ss == Ordered(v)
+               L  == LayoutOrdered(ss)
+               va == ValidOrdered(v, ss)
+               lo == AllContentOK(L)
+           IN [ordered |-> ss, layout |-> L, valid |-> va, layoutok |-> lo, accepted |-> va /\ lo]
 
 -----------------------------------------------------------------------------
 (* 5. the statement, on a layout *)
@@ -209,12 +221,13 @@ CanExtend == /\ Len(vol.structs) < MaxStructs
 
 \* two actions only so that -coverage counts how many enumerated volumes are accepted / rejected
 AddAccepted == /\ CanExtend
-               /\ \E s \in StructDomain : /\ Accepted(Extend(s))
+               /\ \E s \in StructDomain : LET e == Eval(Extend(s)) IN
+                                          /\ e.accepted
                                           /\ vol' = Extend(s)
-                                          /\ lay' = Layout(Extend(s))
+                                          /\ lay' = e.layout
                /\ accepted' = TRUE
 AddRejected == /\ CanExtend
-               /\ \E s \in StructDomain : /\ ~Accepted(Extend(s))
+               /\ \E s \in StructDomain : /\ ~Eval(Extend(s)).accepted
                                           /\ vol' = Extend(s)
                /\ accepted' = FALSE
                /\ lay' = << >>
